@@ -21,9 +21,22 @@ pub fn digest<T: std::hash::Hash>(t: &T) -> u64 {
 
 /// Run `f`, converting a panic into `Err(message)`.
 pub fn catch<R>(f: impl FnOnce() -> R) -> Result<R, String> {
+  let _ = take_panic_location();
   match std::panic::catch_unwind(std::panic::AssertUnwindSafe(f)) {
     Ok(r) => Ok(r),
-    Err(e) => Err(panic_msg(&e)),
+    Err(e) => {
+      // keep the location available for the caller (take_panic_location) but also in the text
+      let loc = LAST_PANIC_LOC.with(|c| c.borrow().clone()).map(|l| short_loc(&l)).unwrap_or_default();
+      Err(format!("{} [at {}]", panic_msg(&e), loc))
+    }
+  }
+}
+
+/// Extracts the "[at file:line]" suffix appended by `catch`.
+pub fn loc_of(msg: &str) -> String {
+  match msg.rfind("[at ") {
+    Some(i) => msg[i + 4..].trim_end_matches(']').to_string(),
+    None => String::new(),
   }
 }
 
